@@ -1769,6 +1769,17 @@ func (c *RemoteClient) runRequests(ctx context.Context, interrupt <-chan interfa
 			}
 
 		case response := <-c.requestResponseChannel:
+			// Requests queued before this response arrived must be registered first. Select serves
+			// ready channels in random order, so the response could otherwise be dropped.
+			for pending := true; pending; {
+				select {
+				case request := <-c.addRequestsChannel:
+					c.requests = append(c.requests, request)
+				default:
+					pending = false
+				}
+			}
+
 			err := c.handleRequestResponse(ctx, response.message)
 			if response.response != nil {
 				response.response <- err
